@@ -203,11 +203,18 @@ def _good_kwargs(rng, fmt, regions):
         if rng.chance(0.3):
             kw['radunit'] = rng.pick(['deg', 'arcsec', 'arcmin'])
     elif fmt == 'fits':
-        if rng.chance(0.3):
-            ext = 'REGION' if rng.chance(0.6) else 'MYEXT'
-            kw['header'] = {'t': 'dict', 'v': [['EXTNAME', ext],
-                                               ['OBSERVER', 'verif'],
-                                               ['NUMBER', 7]]}
+        if rng.chance(0.35):
+            how = rng.weighted([('region', 4), ('other', 2), ('none', 3),
+                                ('lower', 1)])
+            cards = [['OBSERVER', 'verif'], ['NUMBER', 7]]
+            if how == 'region':
+                cards.insert(0, ['EXTNAME', 'REGION'])
+            elif how == 'other':
+                cards.insert(0, ['EXTNAME', 'MYEXT'])
+            elif how == 'lower':
+                cards = [['extname', 'REGION'], ['observer', 'verif']]
+            # ('none': the header does not name the extension at all)
+            kw['header'] = {'t': 'dict', 'v': cards}
     return kw
 
 
@@ -272,7 +279,9 @@ def gen_step(rng, fmt, dest_state, overwrite, fault, encoding, names, idx):
     if rng.chance(0.15):
         ext = ext.upper()
     base = rng.weighted([(f'out{idx}', 6), (f'out {idx}', 1),
-                         (f'r\u00e9g{idx}', 1)])
+                         (f'r\u00e9g{idx}', 1), (f'out$HOME{idx}', 0.4),
+                         (f'out${{HOME}}{idx}', 0.3), (f'out{idx} ', 0.3),
+                         (f're\u0301g{idx}', 0.3), (f'%out{idx}%', 0.2)])
     if res == 'explicit':
         step['format'] = fmt
         name = base + ext
@@ -500,6 +509,8 @@ def gen_plan(seed, index, tier='quick'):
                     else:
                         kw['header'] = {'t': 'dict', 'v': [
                             ['EXTNAME', 'REGION'], ['OBSERVER', 'verif']]}
+                if ops.chance(0.3):
+                    kw = dict(prev['kwargs'])     # the identical call again
                 st['kwargs'] = kw
                 if i != cell_at and prev['overwrite'] and \
                         '\x00' not in prev['dest'] and ops.chance(0.3):
@@ -908,11 +919,11 @@ class Run:
                               for c in changes}
                 except OSError:
                     inodes = set()
-                if all(c[0] in reachable and
-                       (c[2] or [None])[:2] == ['file', 0] for c in changes) \
-                        and len(inodes) == 1:
-                    # one file (under all its names), now empty
-                    damage = 'destination-left-empty'
+                if all(c[0] in reachable and (c[2] or [None])[0] == 'file'
+                       for c in changes) and len(inodes) == 1:
+                    # one file (under all its names) created or rewritten,
+                    # nothing removed, nothing else touched
+                    damage = 'destination-file-incomplete'
                 self.violation(
                     'W2-atomic', i, step,
                     f'write raised {outcome[1]} but the disk changed: '
@@ -969,8 +980,10 @@ class Run:
                     f'after modifying existing entries: '
                     + '; '.join(_describe_change(c) for c in clobbered))
         # W3: only the destination (or what it links to) may change
+        lit = os.path.join('~', os.path.normpath(step['dest']))
         if self.cfg['path_style'] == 'tilde' and step['fmt'] != 'fits' and \
-                any(c[0] == os.path.join('~', dest_rel) for c in changes):
+                any(c[0] == lit for c in changes):
+            dest_rel = os.path.normpath(step['dest'])
             # a text writer that takes "~/name" literally (a directory called
             # "~" below the working directory) has written there: either
             # interpretation of the name is the writer's business
@@ -1066,8 +1079,10 @@ class Run:
         from regions import Regions
         fmt = step['fmt']
         hdr = step['kwargs'].get('header')
-        if isinstance(hdr, dict) and ['EXTNAME', 'REGION'] not in hdr.get(
-                'v', [['EXTNAME', 'REGION']]):
+        named = [str(v).upper() for k, v in (hdr or {}).get('v', [])
+                 if str(k).upper() == 'EXTNAME'] \
+            if isinstance(hdr, dict) else []
+        if named and named[0] != 'REGION':
             # the caller named the extension otherwise: such a file is not
             # meant to be found by Regions.read (later default writes are)
             self.stats['readback_skipped_custom_extname'] = \
